@@ -28,6 +28,12 @@
 #include <utility>
 
 namespace ps {
+// Reading a local that a clause names. A plain (copying) clause holds immutable copies: std::move(copy) is a const rvalue
+// and binds to the first overload. A clause that were able to modify its copy would bind to the second one, which answers
+// with a value no check expects (and spoils the copy, so that a second evaluation shows it too).
+inline int seen(int const&& v) { return v; }
+inline int seen(int&& v) { int r = v; v = -7777; return r + 500000; }
+
 
 constexpr int MOVED = -7;  // tag of a moved-from Tr
 
